@@ -66,7 +66,7 @@ Definition reserialize_identical_full_statement : Prop :=
    (rc_idem).  plain_json: no member named custom_properties / extensions, no null / [] members. *)
 Theorem clean_encode_idem :
   forall vr w rc rp ro, vr_year_pad vr = true ->
-  forall P, rc_idem rc P ->
+  forall P, rc_idem rc ro P ->
   forall k, kind_proved vr P k = true ->
   forall allow interop v p hc, plain_json v = true ->
     clean_kind vr w rc rp ro k allow interop v = Ok (p, hc) ->
@@ -185,12 +185,32 @@ Theorem roundtrip_equal_observed_partial :
 Proof. exact C01Observed.observed_roundtrip. Qed.
 Print Assumptions roundtrip_equal_observed_partial.
 
+(* roundtrip_equal for ObservedData in its STIX 2.0 form (an `objects` dictionary of observables), constructor
+   level, partial: every member is parsed by parse_observable with the member types of the whole container as valid
+   references (ObservableProperty.clean); re-cleaning the written dictionary parses every member to the same
+   object (Proofs/C01KindsAll.v observable_idem, through ro_idem_at: the observable parser is idempotent on its own
+   output and keeps `type`; Proofs/C01Observed.v ro20_idem derives that from the constructor-level theorem one
+   fuel level down, for registered types AND for unregistered types kept as dictionaries under allow_custom).
+   Table conditions observed20_ok: every registered 2.0 observable type leads to a covered class whose `type` is a
+   fixed property.  OUTSIDE: 2.1/ObservedData given the deprecated `objects` (its members are 2.1 observables whose
+   id may be generated after construction). *)
+Theorem roundtrip_equal_observed20_partial :
+  forall vr ev w pattern_ok selectors_ok, vr_year_pad vr = true ->
+  forall ids, closed_okw vr w ids = true ->
+  forall fuel kid allow interop kw vrefs o c,
+    find_class (wclasses w) kid = Some c -> observed20_ok vr w ids c = true ->
+    plain_dict kw = true ->
+    run vr ev w pattern_ok selectors_ok fuel (RConstruct kid allow interop kw vrefs) = Ok o ->
+    run vr ev w pattern_ok selectors_ok fuel (RConstruct kid allow interop (omem o) vrefs) = Ok o.
+Proof. exact C01Observed.observed20_roundtrip. Qed.
+Print Assumptions roundtrip_equal_observed20_partial.
+
 (* the generated tables of /repo: which classes the constructor-level theorems above cover (recomputed by
    the kernel on every run; 119 of 123 at the current tables, plus the two Bundle classes (lib_bundle_ids) by
    roundtrip_equal_bundle_partial = 121, plus 2.1/ObservedData without `objects` (lib_observed_ids) by
-   roundtrip_equal_observed_partial -- OUTSIDE: 2.0/ObservedData, and 2.1/ObservedData given the deprecated
-   `objects` (ObservableProperty: a dictionary of parsed observables with references between them));
-   lib_proved_ids (116: without the two
+   roundtrip_equal_observed_partial, plus 2.0/ObservedData (lib_observed20_ids) by
+   roundtrip_equal_observed20_partial: every one of the 123 classes has a theorem (lib_unproved_ids = []) --
+   OUTSIDE: 2.1/ObservedData given the deprecated `objects`; lib_proved_ids (116: without the two
    MarkingDefinition classes and 2.1 Indicator)
    is the set of the parse-level theorem and of the C04 theorems *)
 Theorem lib_classes_covered :
@@ -203,10 +223,16 @@ Theorem lib_classes_covered :
   forallb (fun k => match find_class (wclasses lib) k with
                     | Some c => observed_ok variant_repaired lib lib_proved_idsw c
                     | None => false
-                    end) lib_observed_ids = true.
+                    end) lib_observed_ids = true /\
+  forallb (fun k => match find_class (wclasses lib) k with
+                    | Some c => observed20_ok variant_repaired lib lib_proved_idsw c
+                    | None => false
+                    end) lib_observed20_ids = true /\
+  lib_unproved_ids = [].
 Proof.
   exact (conj C01LibInstance.lib_proved_closedw (conj C01LibInstance.lib_proved_closed
-          (conj C01LibInstance.lib_proved_sub (conj C01LibInstance.lib_bundle_okb C01LibInstance.lib_observed_okb)))).
+          (conj C01LibInstance.lib_proved_sub (conj C01LibInstance.lib_bundle_okb (conj C01LibInstance.lib_observed_okb
+            (conj C01LibInstance.lib_observed20_okb eq_refl)))))).
 Qed.
 Print Assumptions lib_classes_covered.
 
